@@ -97,6 +97,16 @@ def run(sh):
                 sh.nontrivial.add('%s#%d#%d' % (k, sh.shard, j))
 
 
+_run_generated = run
+
+
+def run(sh):      # noqa: F811 - thorough tier: the repository's own tests are one more workload for the same monitors
+    _run_generated(sh)
+    if sh.tier == 'thorough' and sh.shard == 0:
+        from .. import repotests
+        repotests.run(sh, PROP)
+
+
 def replay(sh, driver, case):
     call(sh, np.asarray(case['sig'], dtype=float), case['peaks'], case['troughs'], driver, case)
     sh.case_done(case, True)
